@@ -120,7 +120,9 @@ func c13Text(x Operand) (msg string) {
 			return fmt.Sprintf("%s output %q held across later encoder calls parses to %s (err %v)", enc.name, clip(snap), ToVal(d), err)
 		}
 	}
-	if x.V.Form == ref.Finite && abs(x.V.Exp) <= 3000 {
+	// plain notation: everywhere up to |exponent| 3000, and for short coefficients over the whole exponent range
+	// (a 100000-character digit run at the package limits)
+	if x.V.Form == ref.Finite && (abs(x.V.Exp) <= 3000 || x.V.Coef.BitLen() < 8) {
 		s := x.D.Text('f')
 		d, _, err := apd.NewFromString(s)
 		if err != nil {
